@@ -258,7 +258,22 @@ func diff(src, dst *rib.RIB, explicitReplace map[spb.AFTType]bool, id *atomic.Ui
 
 	ops := NewReconcileOps()
 
-	for srcNI, srcNIEntries := range srcContents {
+	// Walk the network instances of both RIBs, a network instance that exists
+	// only in dst still has entries that need to be removed.
+	nis := map[string]bool{}
+	for ni := range srcContents {
+		nis[ni] = true
+	}
+	for ni := range dstContents {
+		nis[ni] = true
+	}
+
+	for srcNI := range nis {
+		srcNIEntries, ok := srcContents[srcNI]
+		if !ok {
+			srcNIEntries = &aft.RIB{}
+			srcNIEntries.GetOrCreateAfts()
+		}
 		dstNIEntries, ok := dstContents[srcNI]
 		if !ok {
 			dstNIEntries = &aft.RIB{}
